@@ -600,6 +600,7 @@ class Sim:
         else:
             pol = dec.get("_policy", {})
             do = False
+            quiet = phase.get("quiet_until", 0) > y  # after a switch the thread switched to runs undisturbed for a while
             if site_key is not None:
                 seen = phase.setdefault("site_seen", {})
                 c = seen.get(site_key, 0) + 1
@@ -618,11 +619,13 @@ class Sim:
                     do = True
             elif pol.get("kind") == "bernoulli":
                 do = self.d.rng.random() < pol.get("rate", 1e-3)
-            if do:
+            if do and not quiet:
                 others = [b.idx for b in phase["batons"] if not b.done and b is not me]
                 if others:
                     target = self.d.rng.choice(others)
                     dec["switches"].append([y, me.idx, target])
+                    if pol.get("quantum"):
+                        phase["quiet_until"] = y + pol["quantum"]
         if target is None:
             return
         cand = [b for b in phase["batons"] if b.idx == target and not b.done and b is not me]
